@@ -106,6 +106,48 @@ def run_single(name, servers, ip, extra=(), unresolvable=False, policy=None):
     return code, out
 
 
+ISOLATED_BOOT = r'''
+import json, sys
+sys.path.insert(0, %(harness)r)
+import common
+common.repo_src()
+from props import multi_common as mc
+servers = mc.arch_servers()
+servers.update(mc.fail_servers())
+servers.update(mc.edit_then_abort_servers())
+res = []
+for name, ip, extra in json.loads(sys.argv[1]):
+    code, out = mc.run_single(name, servers, ip, extra)
+    res.append([code, out])
+print(json.dumps(res))
+'''
+
+
+def isolated_singles(keys, par=8):
+    """single-target reference runs, each in a process of its own (what a user's single-target invocation is): nothing an earlier
+    scan left in module- or class-level state can leak into the reference.  keys: [(archetype name, ip, extra args)] -> {key: (exit, stdout)}"""
+    import subprocess
+    import sys as _sys
+    keys = list(dict.fromkeys((n, ip, tuple(e)) for n, ip, e in keys))
+    here = os.path.dirname(os.path.dirname(os.path.abspath(__file__)))
+    boot = ISOLATED_BOOT % {'harness': here}
+    procs, out = [], {}
+    pending = list(keys)
+    while pending or procs:
+        while pending and len(procs) < par:
+            k = pending.pop(0)
+            procs.append((k, subprocess.Popen([_sys.executable, '-c', boot, json.dumps([[k[0], k[1], list(k[2])]])], stdout=subprocess.PIPE, stderr=subprocess.PIPE,
+                                              env=dict(os.environ, PYTHONDONTWRITEBYTECODE='1'))))
+        k, pr = procs.pop(0)
+        so, se = pr.communicate(timeout=300)
+        try:
+            code, text = json.loads(so.decode().strip().split('\n')[-1])[0]
+        except Exception:
+            raise RuntimeError('isolated reference run failed for %r: %s' % (k, se.decode()[-400:]))
+        out[k] = (code, text)
+    return out
+
+
 def split_text_blocks(out):
     """stdout of a text multi-target run -> list of blocks (the 80-dash rule separates them)"""
     sep = '\n' + DASHES + '\n\n'
